@@ -34,21 +34,28 @@ Notation lay := (lay xml pretty).
 Lemma is_xml_META : is_xml META = true. Proof. reflexivity. Qed.
 Lemma is_xml_MANIFEST : is_xml MANIFEST = true. Proof. reflexivity. Qed.
 
-Lemma set_tree_sem : forall fs n x (d : document), WFd fs d -> is_xml n = true ->
+Lemma set_tree_sem : forall fs n x (d : document), WFd fs d -> is_xml n = true -> dB fs d n <> None ->
   let d' := set_tree xml bytes n x d in
   WFd fs d' /\ (forall m, dB fs d' m = dB fs d m) /\ (forall m, dX fs d' m = if m =? n then Some x else dX fs d m)
   /\ cont _ _ d' = cont _ _ d.
 Proof.
-  intros fs n x d W Hn d'. subst d'. unfold set_tree. split; [|split; [reflexivity|split; [|reflexivity]]].
-  - constructor; cbn [cont xps]; [exact (wfd_c _ _ _ _ _ W)|].
-    intros m Hm. rewrite keys_upsert in Hm.
-    match type of Hm with In _ (if ?cnd then _ else _) => destruct cnd end; [apply (wfd_x _ _ _ _ _ W); exact Hm|].
-    apply in_app_or in Hm as [Hm|[<-|[]]]; [apply (wfd_x _ _ _ _ _ W); exact Hm|exact Hn].
+  intros fs n x d W Hn Hlive d'. subst d'. unfold set_tree. split; [|split; [reflexivity|split; [|reflexivity]]].
+  - constructor; cbn [cont xps]; [exact (wfd_c _ _ _ _ _ W)| |].
+    + intros m Hm. rewrite keys_upsert in Hm.
+      match type of Hm with In _ (if ?cnd then _ else _) => destruct cnd end; [apply (wfd_x _ _ _ _ _ W); exact Hm|].
+      apply in_app_or in Hm as [Hm|[<-|[]]]; [apply (wfd_x _ _ _ _ _ W); exact Hm|exact Hn].
+    + intros m y Lm. rewrite lookup_upsert in Lm. destruct (m =? n) eqn:E.
+      * apply Z.eqb_eq in E. subst m. exact Hlive.
+      * apply (wfd_live _ _ _ _ _ W m y Lm).
   - intros m. unfold Pkgproof.dX, Pkgproof.dB. cbn [xps cont]. rewrite lookup_upsert. destruct (m =? n); reflexivity.
 Qed.
 
-Lemma with_cont_wf : forall fs (d : document) c, WFd fs d -> WFc fs c -> WFd fs (d_with_cont _ _ d c).
-Proof. intros fs d c W Wc. constructor; [exact Wc|exact (wfd_x _ _ _ _ _ W)]. Qed.
+Lemma with_cont_wf : forall fs (d : document) c, WFd fs d -> WFc fs c ->
+  (forall m, is_xml m = true -> cB fs (cont _ _ d) m <> None -> cB fs c m <> None) -> WFd fs (d_with_cont _ _ d c).
+Proof.
+  intros fs d c W Wc H. constructor; [exact Wc|exact (wfd_x _ _ _ _ _ W)|].
+  intros m y Lm. apply H; [apply (wfd_x _ _ _ _ _ W); eapply lookup_in_keys; exact Lm|apply (wfd_live _ _ _ _ _ W m y Lm)].
+Qed.
 
 Lemma check_rdf_wf : forall fs (d : document), WFd fs d -> WFd fs (fst (check_rdf fs d)).
 Proof.
@@ -57,8 +64,11 @@ Proof.
   destruct (d_tree fs MANIFEST d) as [d1 [xm|]]; cbn [fst] in *; [|exact W1].
   destruct (match m_get RDF (entries xm) with Some m => negb (m =? EMPTYMT) | None => false end);
     destruct (memz RDF (c_listing bytes kid fs (cont _ _ d1))); cbn [fst]; try exact W1.
-  - apply with_cont_wf; [exact W1|]. apply c_set_part_sem. exact (wfd_c _ _ _ _ _ W1).
-  - apply with_cont_wf; [exact W1|]. apply c_del_part_sem. exact (wfd_c _ _ _ _ _ W1).
+  - destruct (c_set_part_sem bytes kid fs RDF rdf0 (cont _ _ d1) (wfd_c _ _ _ _ _ W1)) as [S1 [S2 _]].
+    apply with_cont_wf; [exact W1|exact S2|]. intros m Hm Hb. rewrite S1. destruct (m =? RDF); [discriminate|exact Hb].
+  - destruct (c_del_part_sem bytes kid fs RDF (cont _ _ d1) (wfd_c _ _ _ _ _ W1)) as [S1 [S2 _]].
+    apply with_cont_wf; [exact W1|exact S2|]. intros m Hm Hb. rewrite S1. destruct (m =? RDF) eqn:E; [|exact Hb].
+    apply Z.eqb_eq in E. subst m. discriminate.
 Qed.
 
 (* every XML part the container holds after the loops parses to the part's tree, up to the layout *)
@@ -136,9 +146,10 @@ Theorem save_file_is_memory : forall fs (d : document) t pk pty fs' d',
 Proof.
   intros fs d t pk pty fs' d' W Hpk Hmask H n.
   unfold Package.d_save in H.
-  pose proof (d_tree_sem xml bytes kid par fs META d W is_xml_META) as [_ [_ [_ [W1 _]]]].
-  destruct (d_tree fs META d) as [d1 [x|]]; cbn [fst] in W1; [|inversion H].
-  destruct (set_tree_sem fs META (stamp x) d1 W1 is_xml_META) as [W2 _].
+  pose proof (d_tree_sem xml bytes kid par fs META d W is_xml_META) as [_ [_ [_ [W1 [_ [_ T7]]]]]].
+  destruct (d_tree fs META d) as [d1 [x|]]; cbn [fst snd] in W1, T7; [|inversion H].
+  destruct (T7 ltac:(discriminate)) as [x0 [Lx0 _]].
+  destruct (set_tree_sem fs META (stamp x) d1 W1 is_xml_META (wfd_live _ _ _ _ _ W1 META x0 Lx0)) as [W2 _].
   pose proof (check_rdf_wf fs _ W2) as W3.
   destruct (check_rdf fs (set_tree xml bytes META (stamp x) d1)) as [d3 ok3]. cbn [fst] in W3.
   destruct ok3; cbn [negb] in H; [|inversion H].
